@@ -5,8 +5,8 @@ Seeded defects (written by independent sub-agents that saw only the property tex
   tools/seeded.py ingest <worktree> <id>     copy patch/demo/meta into seeded/<id>/ and confirm them
                                               in a fresh scratch worktree (tests pass, demo fails with
                                               the change and passes without it)
-  tools/seeded.py run <id> [PROP ...]        git -C /repo apply the patch, run the quick checks,
-                                              git -C /repo checkout -- .   (always undone)
+  tools/seeded.py run <id> [PROP ...]        apply the patch in a scratch worktree of /repo HEAD and run
+                                              the quick checks against it (VERIF_SRC); removed afterwards
 """
 import json
 import os
@@ -79,29 +79,32 @@ def ingest(wt, sid):
 
 
 def run(sid, props):
+    """Run the quick checks against the seeded change, applied in a scratch worktree (never in
+    /repo itself: background runs build from /repo and must not see a half-applied patch)."""
     d = os.path.join(SEEDED, sid)
     meta = json.load(open(os.path.join(d, "meta.json")))
     props = props or [meta["property"]]
-    st = sh(["git", "-C", "/repo", "status", "--porcelain", "--untracked-files=no"]).stdout.strip()
-    if st:
-        print("/repo has uncommitted changes; refusing:", st)
-        return 2
-    ap = sh(["git", "-C", "/repo", "apply", os.path.join(d, "patch.diff")])
-    if ap.returncode:
-        print("patch does not apply to /repo:", ap.stdout)
-        return 2
+    scratch = tempfile.mkdtemp(prefix="seedrun-", dir="/tmp")
+    os.rmdir(scratch)
     results = {}
     try:
+        sh(["git", "-C", "/repo", "worktree", "add", "-q", "--detach", scratch, "HEAD"])
+        ap = sh(["git", "-C", scratch, "apply", os.path.join(d, "patch.diff")])
+        if ap.returncode:
+            print("patch does not apply:", ap.stdout)
+            return 2
         for p in props:
             r = sh([os.path.join(VERIF, "check"), p], cwd=VERIF,
-                   env={**os.environ, "VERIF_EVIDENCE_DIR": tempfile.gettempdir(), "VERIF_SHRINK_S": "20"})
+                   env={**os.environ, "VERIF_SRC": os.path.join(scratch, "src", "cutadapt"),
+                        "VERIF_EVIDENCE_DIR": tempfile.gettempdir(), "VERIF_SHRINK_S": "20"})
             viol = [ln for ln in r.stdout.splitlines() if ln.startswith("VIOLATION") or ln.startswith("  clause=")]
             results[p] = {"exit": r.returncode, "lines": [v[:300] for v in viol[:4]]}
             print(f"{sid} {p}: exit {r.returncode}", *[v[:260] for v in viol[:4]], sep="\n    ")
             if r.returncode == 2:
                 print(r.stdout[-1500:])
     finally:
-        sh(["git", "-C", "/repo", "checkout", "--", "."])
+        sh(["git", "-C", "/repo", "worktree", "remove", "--force", scratch])
+        shutil.rmtree(scratch, ignore_errors=True)
         for f in os.listdir(os.path.join(VERIF, "replays")):
             if f.endswith(".json"):
                 os.unlink(os.path.join(VERIF, "replays", f))
